@@ -134,6 +134,9 @@ def problem_records(ctx, cases, strong_ids=None):
         if r["kind"] not in ("strong", "external"):
             continue
         st["tasks"] += 1
+        task_syms = set()
+        for key in ("left", "right", "ug", "po"):
+            collect_syms(r.get(key), task_syms)
         for fi, fm in enumerate(r["families"]):
             if "panic" in fm:
                 violations.append({"check": ctx.prop + ".panic", "text": r["text"], "detail": f"anthem panicked: {fm['panic']}", "record": {"task": r["text"]}})
@@ -152,9 +155,10 @@ def problem_records(ctx, cases, strong_ids=None):
                     ok4, msg4 = tptp4x_accepts(p["text"], ctx)
                     if not ok4:
                         st["syntax_rejected"] += 1
-                        violations.append({"check": ctx.prop + ".problem_is_valid_tff_syntax", "text": r["text"],
-                                           "detail": f"problem {p['name']} under {fm['flags']}: strict reader: {err}; tptp4X: {msg4.strip()[-200:]}",
-                                           "record": {"task": r["text"], "flags": fm["flags"], "problem": p["name"], "problem_text": p["text"]}})
+                        if ctx.prop == "C09":        # syntax is C09's subject; the other checks only count what they could not read
+                                violations.append({"check": ctx.prop + ".problem_is_valid_tff_syntax", "text": r["text"],
+                                               "detail": f"problem {p['name']} under {fm['flags']}: strict reader: {err}; tptp4X: {msg4.strip()[-200:]}",
+                                               "record": {"task": r["text"], "flags": fm["flags"], "problem": p["name"], "problem_text": p["text"]}})
                     else:
                         st["reader_stricter"] += 1
                     continue
@@ -162,9 +166,17 @@ def problem_records(ctx, cases, strong_ids=None):
                 for f in p["formulas"]:
                     collect_syms(f["f"], syms)
                 syms = sorted(syms, key=lambda x: x.encode())
-                src = [{"name": f["name"], "conj": f["conj"], "f": rerank(f["f"], syms), "transition": "transition_axiom" in f["name"]} for f in p["formulas"]]
+                # anthem renames a symbolic constant that clashes with a 0-ary predicate: s -> s__s.  The constant still denotes
+                # the user's s, so its place in the standard order is that of the ORIGINAL name.
+                orig = {}
+                for nm in syms:
+                    orig[nm] = nm if (nm in task_syms or not nm.endswith("__s") or nm[:-3] not in task_syms) else nm[:-3]
+                order = sorted(set(orig.values()), key=lambda x: x.encode())
+                true_rank = {nm: order.index(orig[nm]) + 1 for nm in syms}
+                src = [{"name": f["name"], "conj": f["conj"], "f": rerank(f["f"], true_rank), "transition": "transition_axiom" in f["name"]} for f in p["formulas"]]
                 out.append({"id": pid, "kind": "tffproblem", "text": f"{r['text']} [{p['name']}; {flag_str(fm['flags'])}]", "nodes": nodes, "source": src,
-                            "nsyms": len(syms), "syms": syms, "strong": r["kind"] == "strong", "problem_text": p["text"]})
+                            "nsyms": len(order), "syms": syms, "true_ranks": [[nm, true_rank[nm]] for nm in syms],
+                            "renamed": sorted(nm for nm in syms if orig[nm] != nm), "strong": r["kind"] == "strong", "problem_text": p["text"]})
     return out, violations, st
 
 
@@ -183,15 +195,15 @@ def collect_syms(t, out):
             collect_syms(v, out)
 
 
-def rerank(t, syms):
-    """ranks of symbolic constants relative to the symbols of ONE problem (the harness ranks them per task)"""
+def rerank(t, rank):
+    """ranks of symbolic constants relative to the symbols of ONE problem, by the byte order of their ORIGINAL names"""
     if isinstance(t, dict):
-        d = {k: rerank(v, syms) for k, v in t.items()}
+        d = {k: rerank(v, rank) for k, v in t.items()}
         if d.get("k") == "sym":
-            d["r"] = syms.index(d["c"]) + 1
+            d["r"] = rank[d["c"]]
         return d
     if isinstance(t, list):
-        return [rerank(v, syms) for v in t]
+        return [rerank(v, rank) for v in t]
     return t
 
 
@@ -237,8 +249,21 @@ def finish_problems(ctx, prefix, cases, usable, skipped, violations, st, verdict
         "typing judgement and standard interpretation of spec/Tptp.tla; bounded three-valued evaluation of the preamble axioms"])
 
 
+# a symbolic constant that is renamed (it is also a 0-ary predicate) next to constants that sort between the old and the new name
+RENAME_PAIRS = [("a", "a0"), ("a", "a_1"), ("ha", "ha_1"), ("a", "a__"), ("b", "b_g"), ("a", "b"), ("b", "a"), ("a", "a__s"), ("p", "p0")]
+
+
+def rename_cases():
+    out = []
+    for i, (s, t) in enumerate(RENAME_PAIRS):
+        out.append({"id": f"rn{i}s", "task": "strong", "left": f"{s} :- q({s}), not q({t}).", "right": f"{s} :- q({s}), not q({t}), not q(1)."})
+        out.append({"id": f"rn{i}e", "task": "external", "left": f"p(X) :- q(X), not {s}, X != {t}. {s} :- q({s}).",
+                    "right": f"p(X) :- q(X), not q({s}), X != {t}.", "ug": "input: q/1. output: p/1."})
+    return out
+
+
 def ident_cases(ctx, n_q, n_t):
-    cases = V.tlc_generate(ctx, "ident", n_q if ctx.quick() else n_t, 1)
+    cases = V.tlc_generate(ctx, "ident", n_q if ctx.quick() else n_t, 1) + rename_cases()
     sfs, efs = E.flagsets(), E.ext_flagsets()
     for i, c in enumerate(cases):
         if c["task"] == "strong":
